@@ -47,6 +47,11 @@ func (m *vertexMaker) make(i int) interface{} {
 	case 5:
 		// hashable vertices with distinct hash codes and one display name per pair
 		return &nv{K: i}
+	case 6:
+		// a vertex that delegates its identity to a key object which is
+		// itself hashable (mutation histories of C19 only: KahnSort hashes
+		// its arguments twice, which is outside C20's universe)
+		return &dv{K: i}
 	default:
 		m.gen++
 		return &hv{K: i, Gen: m.gen}
@@ -67,10 +72,22 @@ func (m *vertexMaker) key(i int) interface{} {
 			return i
 		}
 		return fmt.Sprint(i - 1)
+	case 6:
+		return dkey{i}
 	default:
 		return i
 	}
 }
+
+// dv's hash code is a dkey, and a dkey would hash to something else again if
+// it were hashed a second time.
+type dv struct{ K int }
+
+func (d *dv) Hashcode() interface{} { return dkey{d.K} }
+
+type dkey struct{ K int }
+
+func (k dkey) Hashcode() interface{} { return fmt.Sprintf("rehashed-%d", k.K%2) }
 
 // nv: hash code K, display name shared by K and K^1.
 type nv struct{ K int }
@@ -192,9 +209,20 @@ func buildGraph(ref *refGraph, vm *vertexMaker, r *rand.Rand) (*am.VerifGraph, [
 		}
 	}
 	r.Shuffle(len(es), func(i, j int) { es[i], es[j] = es[j], es[i] })
+	// one graph in four is built partly through a reversed view of itself
+	// (the view shares the graph's state: an edge b->a added through it is
+	// the edge a->b of the graph)
+	var rv *am.VerifGraph
+	if r.Intn(4) == 0 {
+		rv = g.Reverse()
+	}
 	for _, x := range es {
 		if r.Intn(4) == 0 {
 			g.AddEdgeWeighted(vs[x.a], vs[x.b], r.Intn(12)) // overwritten below
+		}
+		if rv != nil && r.Intn(2) == 0 {
+			rv.AddEdgeWeighted(vs[x.b], vs[x.a], ref.w[x.a][x.b])
+			continue
 		}
 		if ref.w[x.a][x.b] == 1 && r.Intn(2) == 0 {
 			g.AddEdge(vs[x.a], vs[x.b])
@@ -767,7 +795,7 @@ func runC19(c *CaseCtx) (res CaseResult) {
 	if c.Idx%30 == 7 {
 		return runC19NilVertex(c, r)
 	}
-	vm := &vertexMaker{kind: r.Intn(nVertexKinds)}
+	vm := &vertexMaker{kind: r.Intn(nVertexKinds + 1)}
 	nv := 2 + r.Intn(5)
 	nops := 1 + r.Intn(60)
 	// churn (1 case in 24): a large graph is built, views are taken, and
@@ -777,7 +805,7 @@ func runC19(c *CaseCtx) (res CaseResult) {
 	buildEnd, removeEnd, remH := 0, 0, 0
 	if churn {
 		nv = 36 + r.Intn(30)
-		buildEnd = nv + nv/2
+		buildEnd = 2 * nv
 		removeEnd = buildEnd + 3 + nv - 3
 		nops = removeEnd + 20 + r.Intn(40)
 		res.obs("churn_cases", 1)
@@ -883,6 +911,7 @@ func runC19(c *CaseCtx) (res CaseResult) {
 		return ok
 	}
 	removals := map[string]int{}
+	maxHub := 0
 	for k := 0; k < nops; k++ {
 		h := pick(r, handles)
 		if churn {
@@ -905,10 +934,14 @@ func runC19(c *CaseCtx) (res CaseResult) {
 			return p
 		}()
 		op := r.Intn(12)
+		hubEdge := false
 		if churn {
 			switch {
 			case k < buildEnd:
 				op = []int{0, 0, 0, 1, 3, 4, 5, 6, 6, 2}[r.Intn(10)]
+				// half of the edges of the build phase touch one hub vertex,
+				// which ends up with dozens of successors and predecessors
+				hubEdge = op >= 3 && op <= 6 && h.m.verts[0] && r.Intn(4) != 0
 			case k == buildEnd:
 				op = 10
 			case k == buildEnd+1:
@@ -973,9 +1006,30 @@ func runC19(c *CaseCtx) (res CaseResult) {
 			trace = append(trace, fmt.Sprintf("%s.AddEdge(%d,%d)", h.name, a, b))
 		case op <= 6:
 			a, b, w := pick(r, present), pick(r, present), r.Intn(10)
+			if hubEdge {
+				if c.Idx%48 == 5 {
+					a = 0
+				} else {
+					b = 0
+				}
+			}
 			h.g.AddEdgeWeighted(vm.make(a), vm.make(b), w)
 			x, y := h.edge(a, b)
 			h.m.edges[x][y] = w
+			if d := len(h.m.edges[0]); d > maxHub {
+				maxHub = d
+			}
+			if a != 0 && b == 0 {
+				din := 0
+				for _, mm := range h.m.edges {
+					if _, ok := mm[0]; ok {
+						din++
+					}
+				}
+				if din > maxHub {
+					maxHub = din
+				}
+			}
 			trace = append(trace, fmt.Sprintf("%s.AddEdgeWeighted(%d,%d,%d)", h.name, a, b, w))
 		case op == 7:
 			a, b := pick(r, present), pick(r, present)
@@ -1039,6 +1093,9 @@ func runC19(c *CaseCtx) (res CaseResult) {
 				}
 			}
 		}
+	}
+	if churn {
+		res.max("max_hub_degree_reached", int64(maxHub))
 	}
 	res.Key = strings.Join(trace, ";")
 	res.NonTrivial = nops >= 10 && hadRemove && hadView
@@ -1110,6 +1167,20 @@ func checkTraversals(ref *refGraph, vm *vertexMaker, r *rand.Rand, res *CaseResu
 			i := r.Intn(n)
 			vs[i] = vm.make(i)
 			g.AddOverwrite(vs[i])
+		}
+		if r.Intn(2) == 0 {
+			// edges naming a vertex that is not in the graph do nothing; the
+			// vertex is then added and removed again, through the graph or a
+			// reversed view of it
+			x := vm.make(n + 7)
+			g.AddEdgeWeighted(vs[r.Intn(n)], x, 1)
+			g.AddEdgeWeighted(x, vs[r.Intn(n)], 1)
+			h := g
+			if r.Intn(2) == 0 {
+				h = g.Reverse()
+			}
+			h.Add(x)
+			h.Remove(x)
 		}
 		res.obs("traversals_checked_after_a_history", 1)
 	}
